@@ -58,6 +58,20 @@ def _one(d, ctx, kind, tier_all, **kw):
         case.trainer_kwargs.pop('max_concentration', None)
         case.meta['data'] = 'sharp-classes'
         sharp = True
+    if kind == 'cacgmm' and d.epoch >= 2 and case.N >= 4 and d.aux(56).integers(0, 5) == 0:
+        # "(and of a source-activity mask, if given) ... every weight-tying
+        # option": a mask with frames in which no source is active together
+        # with weights tied over the classes (all equal: nothing but the class
+        # index could single one out)
+        aux = d.aux(57)
+        m = aux.uniform(size=case.aff_shape) > 0.3
+        m[..., :, 0] = True
+        off = aux.permutation(np.arange(1, case.N))[:max(1, case.N // 4)]
+        m[..., :, off] = False
+        case.opts['source_activity_mask'] = m
+        case.opts['weight_constant_axis'] = (-2,) if aux.integers(0, 2) else -2
+        case.opts.pop('saliency', None)
+        case.meta['mask'] = 'frames-without-active-source'
     if not sharp and d.aux(53).integers(0, 6) == 0:
         # "all initial affiliations": a start that is normalised only up to a
         # floor applied afterwards (one-hot masks clipped at 1e-6, masks
